@@ -14,7 +14,7 @@ class C01(Prop):
             "non-trivial = the history re-submits a known page AND some request contains a new LRU that extends or is a "
             "sibling of another LRU of the same request; distinct = distinct op sequences (sha1).")
     WEIGHTS = {"page": 4, "pages": 3, "links": 3, "batch": 3, "again": 3, "create": 1, "delete": 1, "addprefix": 1,
-               "rmprefix": 1, "move": 1, "rule": 1, "unrule": 1, "reopen": 1, "clear": 1}
+               "rmprefix": 1, "move": 1, "rule": 1, "unrule": 1, "reopen": 1, "clear": 1, "recreate": 1}
     LONG_BIAS = 0.3
     BACKENDS = ("file", "file", "memory")
     QUICK = (40, 20)
